@@ -62,6 +62,7 @@ class Run(object):
         self.world = None
         self.ws = None
         self.after_stop = None
+        self.deadlock = None
 
     def normed(self, drop=('poll',)):
         return [norm(e) for e in self.events if e.name not in drop]
@@ -114,7 +115,7 @@ class TablePolicy(object):
 
 def drive(world, url='ws://example.com/', ws_kwargs=None, connect_kwargs=None,
           policy=None, ws=None, stop_after=None, max_events=100000, headers=None,
-          session_class=None):
+          session_class=None, pre_iter=None):
     """Iterate one connection to its end.  Never raises (apart from harness bugs)."""
     run = Run()
     run.world = world
@@ -127,6 +128,9 @@ def drive(world, url='ws://example.com/', ws_kwargs=None, connect_kwargs=None,
         run.ws = ws
         gen = ws.connect(session_class=session_class or simnet.SimSession, **ckw)
         run.gen = gen
+        if pre_iter is not None:
+            # between connect() returning the iterator and its first next()
+            pre_iter(run)
         _iterate(run, gen, ws, policy, stop_after, max_events)
     return run
 
@@ -145,6 +149,12 @@ def _iterate(run, gen, ws, policy, stop_after=None, max_events=100000):
                 run.after_stop = 'stop'
             except BaseException as e:   # noqa
                 run.after_stop = repr(e)
+            break
+        except env.SelfDeadlock as e:
+            # with threading.Lock this next() would never return
+            run.end = 'deadlock'
+            run.exc = repr(e)
+            run.deadlock = list(env.DEADLOCKS[-1]) if env.DEADLOCKS else None
             break
         except Quiesced as e:
             run.end = 'quiesced'
@@ -170,6 +180,12 @@ def _iterate(run, gen, ws, policy, stop_after=None, max_events=100000):
             world.in_app = True
             try:
                 policy(ws, ev, len(run.events) - 1, run)
+            except env.SelfDeadlock as e:
+                # with threading.Lock this application call would never return
+                run.end = 'deadlock'
+                run.exc = 'in application call: %r' % (e,)
+                run.deadlock = list(env.DEADLOCKS[-1]) if env.DEADLOCKS else None
+                break
             finally:
                 world.in_app = False
         if stop_after is not None and len(run.events) > stop_after:
